@@ -100,6 +100,16 @@ class Fold(ast.NodeTransformer):
 
     def visit_Call(self, c: ast.Call):
         self.generic_visit(c)
+        # f(**{"k": v}) -> f(k=v)
+        if any(k.arg is None and isinstance(k.value, ast.Dict) and all(isinstance(x, ast.Constant) and isinstance(x.value, str) for x in k.value.keys)
+               for k in c.keywords):
+            newk = []
+            for k in c.keywords:
+                if k.arg is None and isinstance(k.value, ast.Dict) and all(isinstance(x, ast.Constant) and isinstance(x.value, str) for x in k.value.keys):
+                    newk += [ast.keyword(arg=x.value, value=v) for x, v in zip(k.value.keys, k.value.values)]
+                else:
+                    newk.append(k)
+            c.keywords = newk
         # f(*(<a>, <b>)) -> f(<a>, <b>)
         if any(isinstance(a, ast.Starred) and isinstance(a.value, (ast.Tuple, ast.List)) for a in c.args):
             new = []
@@ -313,7 +323,9 @@ class Helper:
         # @np.errstate(...) only silences floating-point warnings: it does not change any value
         decos = [d for d in node.decorator_list if not (isinstance(d, ast.Call) and isinstance(d.func, ast.Attribute) and d.func.attr == "errstate"
                                                         and isinstance(d.func.value, ast.Name) and d.func.value.id in ("np", "numpy"))]
-        self.ok = not (a.vararg or a.kwarg or decos)
+        self.ok = not decos
+        self.vararg = a.vararg.arg if a.vararg else None
+        self.kwarg = a.kwarg.arg if a.kwarg else None
         self.params = [p.arg for p in a.posonlyargs + a.args] + [p.arg for p in a.kwonlyargs]
         self.npos = len(a.posonlyargs + a.args)
         self.defaults: Dict[str, ast.expr] = {}
@@ -345,15 +357,27 @@ def _bind(h: Helper, call: ast.Call, is_method: bool) -> Optional[Dict[str, ast.
     npos = h.npos - (1 if is_method else 0)
     if any(isinstance(a, ast.Starred) for a in call.args) or any(k.arg is None for k in call.keywords):
         return None
-    if len(call.args) > npos:
+    if len(call.args) > npos and not h.vararg:
         return None
     m: Dict[str, ast.expr] = {}
-    for p, a in zip(params, call.args):
+    pos_params = params[:npos]
+    for p, a in zip(pos_params, call.args):
         m[p] = a
+    if h.vararg:
+        m[h.vararg] = ast.Tuple(elts=list(call.args[npos:]), ctx=ast.Load())
+    extra_k, extra_v = [], []
     for k in call.keywords:
-        if k.arg not in params or k.arg in m:
+        if k.arg in m:
             return None
+        if k.arg not in params:
+            if not h.kwarg:
+                return None
+            extra_k.append(ast.Constant(value=k.arg))
+            extra_v.append(k.value)
+            continue
         m[k.arg] = k.value
+    if h.kwarg:
+        m[h.kwarg] = ast.Dict(keys=extra_k, values=extra_v)
     for p in params:
         if p not in m:
             if p not in h.defaults:
